@@ -177,6 +177,12 @@ func (e *Engine) resolveType(text string, pkg *types.Package) types.Type {
 			return types.NewPointer(t)
 		}
 		return nil
+	case strings.HasPrefix(text, "set["):
+		// spec-only set type set[T] (ghosts): an SMT array T -> Bool; builtins in(s, x), add(s, x)
+		if t := e.resolveType(strings.TrimSuffix(text[4:], "]"), pkg); t != nil {
+			return types.NewArray(t, -2)
+		}
+		return nil
 	case strings.HasPrefix(text, "seq["):
 		if t := e.resolveType(strings.TrimSuffix(text[4:], "]"), pkg); t != nil {
 			return types.NewArray(t, -1)
